@@ -202,13 +202,17 @@ def r15_3(ctx: Ctx):
     psn = ps.self_name()
     loops = [n for n in ps.node.body if isinstance(n, ast.For)]
     okl = len(loops) == 1 and canon(loops[0].iter) == f"{psn}.individuals[1:]" and isinstance(loops[0].target, ast.Name)
+    enum_ind = None
+    if len(loops) == 1 and isinstance(loops[0].iter, ast.Call) and norm(loops[0].iter.func) == "enumerate" and loops[0].iter.args and canon(loops[0].iter.args[0]) == f"{psn}.individuals[1:]" and isinstance(loops[0].target, ast.Tuple) and len(loops[0].target.elts) == 2 and all(isinstance(e, ast.Name) for e in loops[0].target.elts):
+        okl = True
+        enum_ind = loops[0].target.elts[1].id
     it_t = canon(loops[0].iter, local_defs(ps)) if len(loops) == 1 else ""
     if not okl and len(loops) == 1 and it_t == f"{psn}.individuals[1:]" and isinstance(loops[0].target, ast.Name):
         okl = True
     definite = len(loops) == 1 and re.fullmatch(re.escape(f"{psn}.individuals") + r"(\[[-\d:]*\])?", it_t) is not None and not okl
     obs.append(ctx.ob("R15.3", ps, loops[0] if loops else ps.node, status=OK if okl else VIOLATION if definite else INCONCLUSIVE, detail="every individual after the best is attached" if okl else f"the spanning tree is built over `{norm(loops[0].iter) if loops else '?'}`, not over every individual after the best", construct="attach-loop"))
     if okl:
-        ind = loops[0].target.id
+        ind = enum_ind or loops[0].target.id
         ldefs = {}
         for n in ast.walk(loops[0]):
             if isinstance(n, ast.Assign) and len(n.targets) == 1 and isinstance(n.targets[0], ast.Name):
@@ -258,6 +262,10 @@ def r15_3(ctx: Ctx):
 
     okn = bool(re.search(r"np\.linalg\.norm\(%s\.genome-np\.array\(\[(\w+)\.genomefor\1in%s\]\),axis=1\)" % (i_p, b_p), t)) and "np.argmin(" in t and t.count("np.argmax") == 0
     ordok = "ord=" not in t
+    expanded = "np.sqrt(" in t and ("@" in t or "np.dot(" in t or "einsum" in t) and re.search(r"-2(\.0)?\*|\*2(\.0)?\b", t) is not None
+    if expanded:
+        obs.append(ctx.ob("R15.3", fn, rets[0] if rets else fn.node, status=VIOLATION, detail="distances are computed in the expanded form sqrt(|a|^2 - 2ab + |b|^2): catastrophic cancellation for populations far from the origin makes them wrong (and not translation invariant); the definition needs ||a - b||", construct="nearest"))
+        return obs
     definite = "np.argmax(" in t or not ordok or ("np.argmin(" in t and "np.linalg.norm(" in t and "axis=0" in t) or ("np.abs(" in t and "np.linalg.norm" not in t)
     obs.append(ctx.ob("R15.3", fn, rets[0] if rets else fn.node, status=OK if (okn and ordok) else VIOLATION if definite else INCONCLUSIVE, detail="nearest = argmin of Euclidean distances to the better individuals" if (okn and ordok) else f"_find_nearest_better returns `{t[:120]}`: not (min Euclidean distance, the individual attaining it)", construct="nearest"))
     return obs
